@@ -215,13 +215,20 @@ def run_check(engine_factory, property_id, tier, base_seed, n_workers=None, scal
     if errors:
         for r in errors[:3]:
             print(f"HARNESS-ERROR property={property_id} seed={r['seed']} submode={r['submode']}: {r['error']}", flush=True)
-        _write_evidence(engine, property_id, tier, base_seed, results, t0, det=None, note="harness errors", n_viol=0)
-        return 2
+        if not any(r["violations"] for r in results):
+            _write_evidence(engine, property_id, tier, base_seed, results, t0, det=None, note="harness errors", n_viol=0)
+            return 2
+        # some runs were inconclusive (timeout / harness exception) but others show a violation: report it
+        print(f"[{property_id}] {len(errors)} run(s) inconclusive; continuing with the violations found in the others", flush=True)
+        inconclusive = len(errors)
+    else:
+        inconclusive = 0
 
     # ---- determinism self-test -----------------------------------------------------------------
     n_det = engine.determinism_sample(tier)
-    step = max(1, len(jobs) // n_det)
-    det_idx = list(range(0, len(jobs), step))[:n_det]
+    ok_idx = [i for i, r in enumerate(results) if not r["error"]]
+    step = max(1, len(ok_idx) // n_det)
+    det_idx = [ok_idx[k] for k in range(0, len(ok_idx), step)][:n_det]
     det_jobs = [(jobs[i][0], jobs[i][1], jobs[i][2], False) for i in det_idx]
     pass_b = digests_for(engine_factory, known_keys, det_jobs, max(2, (2 * n_workers) // 3))
     fresh_n = max(4, len(det_idx) // 4)
@@ -240,6 +247,8 @@ def run_check(engine_factory, property_id, tier, base_seed, n_workers=None, scal
         "other_pythonhashseed": 4242,
         "mismatches": len(mismatches),
     }
+    if inconclusive:
+        det["inconclusive_runs"] = inconclusive
     if mismatches:
         for i, why in mismatches[:5]:
             print(f"HARNESS-NONDETERMINISM property={property_id} seed={jobs[i][1]} submode={jobs[i][2]} ({why})", flush=True)
@@ -301,6 +310,8 @@ def run_check(engine_factory, property_id, tier, base_seed, n_workers=None, scal
 
     _write_evidence(engine, property_id, tier, base_seed, results, t0, det=det, note=None, n_viol=n_viol,
                     replays=replay_paths, known_hit=known_hit, t_batch=t_batch)
+    if inconclusive and rc == 0:
+        rc = 2  # never exit 0 when some runs could not be completed
     dt = time.time() - t0
     print(f"[{property_id}] done in {dt:.1f}s rc={rc}", flush=True)
     return rc
